@@ -85,4 +85,21 @@ class VTaskBag(Task):
         pass
 
 
-TASK_CLASSES = [VTask, VTaskOut, VTaskBag]
+class VTaskEmpty(Task):
+    """A collection-like task: its truth value is False while `items` is empty (a dataset task that has
+    a __len__); submit() returns the task itself"""
+
+    name: Param[str]
+    child: Param[Optional[Config]] = None
+    bag: Param[Optional[Config]] = None
+    items: Param[List[Config]] = []
+    table: Param[Dict[str, Config]] = {}
+
+    def __len__(self):
+        return len(self.items)
+
+    def execute(self):
+        pass
+
+
+TASK_CLASSES = [VTask, VTaskOut, VTaskBag, VTaskEmpty]
